@@ -187,6 +187,22 @@ theorem app_unsupported_ctype (P : Params) (fs : List Fld) (init v : Val) (h : H
     (appBind P fs init h strict st).last = .err .ctype := by
   simp [appBind, hp, hb, hct]
 
+/-- **bindForm binds from the container its own test of the raw header selects**: `MultipartForm.Value` - the
+    fields of the multipart body alone - exactly when the raw Content-Type starts with `multipart/form-data`,
+    `Request.Form` otherwise (also for a multipart type written in another case, which the dispatch accepts). -/
+theorem app_form_source (h : Http) :
+    (hasPrefix h.ctype (B "multipart/form-data") = true → formSrc h = h.mform.getD { kind := .form, kvs := [] }) ∧
+    (hasPrefix h.ctype (B "multipart/form-data") = false → formSrc h = h.form) := by
+  constructor <;> intro hp <;> simp [formSrc, hp]
+
+theorem app_form_source_examples :
+    (formSrc { ctype := B "multipart/form-data; boundary=x", params := [], form := { kind := .form, kvs := [(B "a", [B "url", B "body"])] },
+               mform := some { kind := .form, kvs := [(B "a", [B "body"])] }, docs := [], bodyTags := true }).kvs = [(B "a", [B "body"])] ∧
+    (formSrc { ctype := B "Multipart/Form-Data; boundary=x", params := [], form := { kind := .form, kvs := [(B "a", [B "url"])] },
+               mform := none, docs := [], bodyTags := true }).kvs = [(B "a", [B "url"])] ∧
+    classifyCT (B "multipart/form-data; boundary=x") = .multipart ∧ classifyCT (B "Multipart/Form-Data; boundary=x") = .multipart := by
+  decide
+
 /-! ## registered converters -/
 
 /-- **A registered converter decides alone.** For a leaf type with a converter in force (the Binder's,
